@@ -81,6 +81,11 @@ fn main() {
         Err(e) => ctx.inconclusive(e),
     }
 
+    match spec::cpc::self_check() {
+        Ok(n) => ctx.note("cpc_table_self_checks", Json::Int(n as i128)),
+        Err(e) => ctx.inconclusive(format!("CPC spec tables self-check failed: {}", e)),
+    }
+
     if ctx.inconclusive.is_empty() {
         let r = rt::guard(|| {
             if let Some(path) = &replay {
